@@ -3,7 +3,10 @@
 package tracer
 
 import (
+	"io"
+	"net/http"
 	"net/http/httptest"
+	"reflect"
 	"sync"
 )
 
@@ -43,4 +46,38 @@ func vfNewBuilder(collector Collector, client bool) *builder {
 	req.Header.Set("X-Test-Case-Name", "Suite/T")
 	b, _ := newBuilder(req, client, collector)
 	return b
+}
+
+// vfNewReader calls the package's newReader whatever the exact shape of its completion callback is
+// (func(), func(error), ...): a refactoring of that internal signature must not blind the monitors.
+func vfNewReader(headers http.Header, reader io.ReadCloser, isRequest bool, bld *builder, whenDone func()) io.ReadCloser {
+	fn := reflect.ValueOf(newReader)
+	ft := fn.Type()
+	args := make([]reflect.Value, ft.NumIn())
+	for i := range args {
+		in := ft.In(i)
+		switch {
+		case in == reflect.TypeOf(headers):
+			args[i] = reflect.ValueOf(headers)
+		case in.Kind() == reflect.Interface && reflect.TypeOf(reader).Implements(in):
+			args[i] = reflect.ValueOf(reader).Convert(in)
+		case in.Kind() == reflect.Bool:
+			args[i] = reflect.ValueOf(isRequest)
+		case in == reflect.TypeOf(bld):
+			args[i] = reflect.ValueOf(bld)
+		case in.Kind() == reflect.Func:
+			cbType := in
+			args[i] = reflect.MakeFunc(cbType, func([]reflect.Value) []reflect.Value {
+				whenDone()
+				outs := make([]reflect.Value, cbType.NumOut())
+				for k := range outs {
+					outs[k] = reflect.Zero(cbType.Out(k))
+				}
+				return outs
+			})
+		default:
+			args[i] = reflect.Zero(in)
+		}
+	}
+	return fn.Call(args)[0].Interface().(io.ReadCloser)
 }
